@@ -502,6 +502,62 @@ func runExp(m *model.Model, s *ob.Set) {
 			}
 		}
 	}
+	// (ii') arithmetic performed directly on the int32 exponent field, whatever happens to the
+	// result: x.exp - 1 wraps at MinExp before any widening conversion can help
+	tabledArith := map[string]string{
+		"(*Decimal).Rat": "x.exp - allDigits and allDigits - x.exp are computed on the branch where a comparison of the same two operands made the difference positive; allDigits >= 0",
+	}
+	for _, fn := range m.Funcs {
+		if !m.InDecimalPkg(fn) {
+			continue
+		}
+		live := m.Live(fn)
+		name := m.FuncName(fn)
+		k := 0
+		for _, b := range fn.Blocks {
+			if !live[b.Index] {
+				continue
+			}
+			for _, in := range b.Instrs {
+				bo, ok := in.(*ssa.BinOp)
+				if !ok || (bo.Op != token.ADD && bo.Op != token.SUB) {
+					continue
+				}
+				var ld ssa.Value
+				if lf, ok := m.LoadOfDecField(bo.X); ok && lf.Field == m.F.Exp {
+					ld = bo.X
+				} else if lf, ok := m.LoadOfDecField(bo.Y); ok && lf.Field == m.F.Exp {
+					ld = bo.Y
+				}
+				if ld == nil {
+					continue
+				}
+				// stored straight back into .exp: handled as exp-step above
+				stored := false
+				if bo.Referrers() != nil {
+					for _, u := range *bo.Referrers() {
+						if st, ok := u.(*ssa.Store); ok {
+							if fa, ok := m.DecField(st.Addr); ok && fa.Field == m.F.Exp {
+								stored = true
+							}
+						}
+					}
+				}
+				if stored {
+					continue
+				}
+				k++
+				nsites++
+				cn := fmt.Sprintf("%s/int32-exp-arith#%d", name, k)
+				lo, hi := rangeGuarded(fn, ld, b, bo.Op == token.SUB && ld == bo.X, bo.Op == token.ADD)
+				if w, tab := tabledArith[name]; tab {
+					s.Note(R+"(ii)", cn, m.InstrPos(bo), "tabled: "+w)
+					continue
+				}
+				s.Check(lo && hi, R+"(ii)", cn, m.InstrPos(bo), "guarded by a comparison with the exponent limit", "arithmetic is done directly on the int32 exponent (widen it first, or compare with MinExp/MaxExp): it wraps at the end of the exponent range")
+			}
+		}
+	}
 	if nsites < 10 {
 		model.Fatal("EXP: only %d exponent sites found", nsites)
 	}
@@ -578,6 +634,10 @@ func structEq(a, b ssa.Value, depth int) bool {
 	case *ssa.Convert:
 		y, ok := b.(*ssa.Convert)
 		return ok && types.Identical(x.Type(), y.Type()) && structEq(x.X, y.X, depth-1)
+	case *ssa.UnOp:
+		// arithmetic negation / complement only: loads are not pure
+		y, ok := b.(*ssa.UnOp)
+		return ok && x.Op == y.Op && (x.Op == token.SUB || x.Op == token.XOR) && structEq(x.X, y.X, depth-1)
 	case *ssa.Call:
 		y, ok := b.(*ssa.Call)
 		if !ok {
@@ -958,5 +1018,429 @@ func runInit(m *model.Model, s *ob.Set) {
 	}
 	if n < 4 {
 		model.Fatal("INIT: only %d accumulating sites with a locally owned buffer found", n)
+	}
+}
+
+// ---------------------------------------------------------------- SHIFTDIR
+
+func init() {
+	Register(&Rule{Name: "SHIFTDIR", Floor: 2, Run: runShiftDir,
+		Doc: "a signed difference a-b that is converted to an unsigned shift count or digit count is computed only on paths where a comparison established a > b (or a >= b); in uadd/usub the operand that is shifted left is the one whose exponent is the minuend"})
+}
+
+func runShiftDir(m *model.Model, s *ob.Set) {
+	const R = "SHIFTDIR"
+	n := 0
+	for _, fn := range m.Funcs {
+		if !m.InDecimalPkg(fn) || inKernelLayer(m, fn) {
+			continue
+		}
+		live := m.Live(fn)
+		var bad []string
+		sites := 0
+		for _, b := range fn.Blocks {
+			if !live[b.Index] {
+				continue
+			}
+			for _, in := range b.Instrs {
+				cv, ok := in.(*ssa.Convert)
+				if !ok {
+					continue
+				}
+				tb, ok := cv.Type().Underlying().(*types.Basic)
+				if !ok || tb.Info()&types.IsUnsigned == 0 {
+					continue
+				}
+				sub, ok := cv.X.(*ssa.BinOp)
+				if !ok || sub.Op != token.SUB {
+					continue
+				}
+				sb, ok := sub.X.Type().Underlying().(*types.Basic)
+				if !ok || sb.Info()&types.IsInteger == 0 || sb.Info()&types.IsUnsigned != 0 {
+					continue
+				}
+				if _, isConst := sub.X.(*ssa.Const); isConst {
+					continue // c - x with a constant minuend: a digit-position computation, not a difference of exponents
+				}
+				// only differences used as a decimal shift count (dec.shl / dec.shr)
+				usedAsArg := false
+				if cv.Referrers() != nil {
+					for _, u := range *cv.Referrers() {
+						if cal, _ := model.Callee(u); cal != nil && (m.FuncName(cal) == "dec.shl" || m.FuncName(cal) == "dec.shr") {
+							usedAsArg = true
+						}
+					}
+				}
+				if !usedAsArg {
+					continue
+				}
+				sites++
+				n++
+				// dominating edge establishing X > Y or X >= Y
+				okDir := false
+				for _, gb := range fn.Blocks {
+					if len(gb.Instrs) == 0 {
+						continue
+					}
+					ifi, ok := gb.Instrs[len(gb.Instrs)-1].(*ssa.If)
+					if !ok {
+						continue
+					}
+					bo, ok := ifi.Cond.(*ssa.BinOp)
+					if !ok {
+						continue
+					}
+					eq := func(a, b ssa.Value) bool { return a == b || structEq(a, b, 4) || sameFieldLoad(m, a, b) }
+					dirXY := eq(bo.X, sub.X) && eq(bo.Y, sub.Y)
+					dirYX := eq(bo.X, sub.Y) && eq(bo.Y, sub.X)
+					edge := -1
+					switch {
+					case dirXY && (bo.Op == token.GTR || bo.Op == token.GEQ):
+						edge = 0
+					case dirXY && (bo.Op == token.LSS || bo.Op == token.LEQ):
+						edge = 1
+					case dirYX && (bo.Op == token.LSS || bo.Op == token.LEQ):
+						edge = 0
+					case dirYX && (bo.Op == token.GTR || bo.Op == token.GEQ):
+						edge = 1
+					}
+					if edge >= 0 && m.EdgeDominates(gb, edge, b) {
+						okDir = true
+					}
+				}
+				if !okDir {
+					bad = append(bad, fmt.Sprintf("%s: unsigned(%s - %s) is computed without a dominating comparison establishing that the difference is non-negative", m.InstrPos(cv), exprKey(m, sub.X, 3), exprKey(m, sub.Y, 3)))
+					continue
+				}
+				// uadd/usub: shl(P.mant, uint(eP - eQ)): the shifted operand is the one the minuend belongs to
+				if cv.Referrers() != nil {
+					for _, u := range *cv.Referrers() {
+						cal, c := model.Callee(u)
+						if cal == nil || m.FuncName(cal) != "dec.shl" {
+							continue
+						}
+						lf, ok := m.LoadOfDecField(model.Unwrap(c.Args[1]))
+						if !ok {
+							continue
+						}
+						k, ok := m.RefOf(lf.X).IsSingleParam()
+						if !ok {
+							continue
+						}
+						dep := func(v ssa.Value, p int) bool {
+							found := false
+							var walk func(v ssa.Value, d int)
+							seen := map[ssa.Value]bool{}
+							walk = func(v ssa.Value, d int) {
+								if d == 0 || seen[v] || found {
+									return
+								}
+								seen[v] = true
+								if f2, ok := m.LoadOfDecField(v); ok {
+									if j, ok := m.RefOf(f2.X).IsSingleParam(); ok && j == p {
+										found = true
+									}
+									return
+								}
+								if in2, ok := v.(ssa.Instruction); ok {
+									var ops []*ssa.Value
+									for _, o := range in2.Operands(ops) {
+										if *o != nil {
+											walk(*o, d-1)
+										}
+									}
+								}
+							}
+							walk(v, 8)
+							return found
+						}
+						other := false
+						for j := range fn.Params {
+							if j != k && m.IsDecPtr(fn.Params[j].Type()) && (dep(sub.X, j) || dep(sub.Y, j)) {
+								other = true
+							}
+						}
+						if !other {
+							continue // both terms belong to the same operand (Rat, intMant): nothing to confuse
+						}
+						if !dep(sub.X, k) || dep(sub.Y, k) {
+							bad = append(bad, fmt.Sprintf("%s: %s.mant is shifted left by a difference whose minuend is not %s's own exponent: the operand with the SMALLER exponent would be scaled up", m.InstrPos(u), fn.Params[k].Name(), fn.Params[k].Name()))
+						}
+					}
+				}
+			}
+		}
+		if sites == 0 {
+			continue
+		}
+		c := m.FuncName(fn)
+		if len(bad) == 0 {
+			s.Ok(R, c, m.Pos(fn.Pos()), fmt.Sprintf("%d unsigned difference(s), each guarded and pointing the right way", sites))
+		} else {
+			s.Bad(R, c, m.Pos(fn.Pos()), bad[0], bad[1:]...)
+		}
+	}
+	if n < 2 {
+		model.Fatal("SHIFTDIR: only %d shift counts computed as a signed difference found", n)
+	}
+}
+
+// ---------------------------------------------------------------- LOWCUT, DECNORM
+
+func init() {
+	Register(&Rule{Name: "LOWCUT", Floor: 3, Run: runLowCut,
+		Doc: "low-order words of a Decimal's mantissa are never sliced away outside round (which computes the sticky bit of what it drops) unless exactly the dropped digits are summarised by sticky(words*_DW) that reaches the rounding: digits that are dropped silently are lost to rounding and accuracy"})
+	Register(&Rule{Name: "DECNORM", Floor: 10, Run: runDecNorm,
+		Doc: "every dec-layer function that returns a dec returns a normalised value: the result of norm(), of another such function, an empty slice, or its own (normalised) parameter"})
+}
+
+func runLowCut(m *model.Model, s *ob.Set) {
+	const R = "LOWCUT"
+	tabled := map[string]string{
+		"(*Decimal).round":     "round computes the rounding digit and the sticky bit of everything below it before cutting",
+		"(*Decimal).GobEncode": "encodes at most ceil(prec/_DW) top words; lower words are zero for a canonical Decimal (digits <= prec)",
+		"(*Decimal).toa":       "strips low words that the preceding loop found to be zero",
+	}
+	sear := m.Lookup("(*Decimal).setExpAndRound")
+	round := m.Lookup("(*Decimal).round")
+	n := 0
+	for _, fn := range m.Funcs {
+		if !m.InDecimalPkg(fn) || inKernelLayer(m, fn) {
+			continue
+		}
+		live := m.Live(fn)
+		var cuts []*ssa.Slice
+		for _, b := range fn.Blocks {
+			if !live[b.Index] {
+				continue
+			}
+			for _, in := range b.Instrs {
+				sl, ok := in.(*ssa.Slice)
+				if !ok || sl.Low == nil || !m.IsWordSlice(sl.X.Type()) {
+					continue
+				}
+				if k, ok := model.ConstInt(sl.Low); ok && k == 0 {
+					continue
+				}
+				isMant := false
+				for l := range m.RootsOf(sl.X) {
+					if strings.HasSuffix(l, ".mant") {
+						isMant = true
+					}
+				}
+				if !isMant {
+					continue
+				}
+				// a destination of copy/kernels is a write, not a cut
+				onlyDest := sl.Referrers() != nil && len(*sl.Referrers()) > 0
+				if sl.Referrers() != nil {
+					for _, u := range *sl.Referrers() {
+						cal, c := model.Callee(u)
+						isDest := false
+						if c != nil && len(c.Args) > 0 && c.Args[0] == ssa.Value(sl) {
+							if cal == nil && model.BuiltinName(c) == "copy" {
+								isDest = true
+							}
+							if cal != nil && (carryKernels[cal.Name()] || m.IsVectorKernel(cal)) {
+								isDest = true
+							}
+						}
+						if _, isDbg := u.(*ssa.DebugRef); isDbg {
+							continue
+						}
+						if !isDest {
+							onlyDest = false
+						}
+					}
+				}
+				if onlyDest {
+					continue
+				}
+				cuts = append(cuts, sl)
+			}
+		}
+		if len(cuts) == 0 {
+			continue
+		}
+		n += len(cuts)
+		name := m.FuncName(fn)
+		c := name
+		if why, ok := tabled[name]; ok {
+			s.Ok(R, c, m.InstrPos(cuts[0]), fmt.Sprintf("%d low cut(s), tabled: %s", len(cuts), why))
+			continue
+		}
+		var bad []string
+		for _, sl := range cuts {
+			base, _ := sliceBase(sl.X)
+			okSticky := false
+			for _, b := range fn.Blocks {
+				for _, in := range b.Instrs {
+					call, ok := in.(*ssa.Call)
+					if !ok {
+						continue
+					}
+					cal := call.Call.StaticCallee()
+					if cal == nil || m.FuncName(cal) != "dec.sticky" {
+						continue
+					}
+					sb, _ := sliceBase(call.Call.Args[0])
+					sameBase := sb == base
+					if !sameBase {
+						if la, ok1 := m.LoadOfDecField(model.Unwrap(sb)); ok1 {
+							if lb, ok2 := m.LoadOfDecField(model.Unwrap(base)); ok2 && la.Field == lb.Field && la.X == lb.X {
+								sameBase = true
+							}
+						}
+					}
+					if !sameBase {
+						continue
+					}
+					// argument must be (words dropped) * _DW
+					mul, ok := call.Call.Args[1].(*ssa.BinOp)
+					if !ok || mul.Op != token.MUL {
+						continue
+					}
+					dw, _ := constant.Int64Val(m.PkgConst("_DW"))
+					var cnt ssa.Value
+					if k, ok := model.ConstInt(mul.Y); ok && k == dw {
+						cnt = mul.X
+					} else if k, ok := model.ConstInt(mul.X); ok && k == dw {
+						cnt = mul.Y
+					}
+					if cnt == nil || !structEq(stripConv(cnt), stripConv(sl.Low), 5) {
+						continue
+					}
+					// and reach the rounding
+					for _, b2 := range fn.Blocks {
+						for _, in2 := range b2.Instrs {
+							if cal2, c2 := model.Callee(in2); cal2 == sear && flowsInto(m, call, c2.Args[2], 8, map[ssa.Value]bool{}) {
+								okSticky = true
+							} else if cal2 == round && flowsInto(m, call, c2.Args[1], 8, map[ssa.Value]bool{}) {
+								okSticky = true
+							}
+						}
+					}
+				}
+			}
+			if !okSticky {
+				bad = append(bad, fmt.Sprintf("%s: the low words of a mantissa are sliced away (%s) and no sticky(%s*_DW) of the same mantissa reaches the rounding: the dropped digits are invisible to the rounding decision and to Acc()", m.InstrPos(sl), "["+exprKey(m, sl.Low, 3)+":]", exprKey(m, sl.Low, 3)))
+			}
+		}
+		if len(bad) == 0 {
+			s.Ok(R, c, m.InstrPos(cuts[0]), fmt.Sprintf("%d low cut(s), each summarised by a sticky bit that reaches the rounding", len(cuts)))
+		} else {
+			s.Bad(R, c, m.InstrPos(cuts[0]), bad[0], bad[1:]...)
+		}
+	}
+	if n < 3 {
+		model.Fatal("LOWCUT: only %d low cuts of a mantissa found (round, GobEncode, toa expected)", n)
+	}
+}
+
+func runDecNorm(m *model.Model, s *ob.Set) {
+	const R = "DECNORM"
+	tabled := map[string]string{
+		"dec.make":    "buffer constructor: returns storage, not a value",
+		"dec.set":     "copies its argument: normalised iff the argument is (callers pass normalised values)",
+		"dec.setWord": "a single non-zero word (the zero case returns z[:0])",
+		"dec.norm":    "the normaliser itself",
+	}
+	isDecFn := func(fn *ssa.Function) bool {
+		if fn == nil || !m.InDecimalPkg(fn) || inKernelLayer(m, fn) || len(fn.Blocks) == 0 {
+			return false
+		}
+		res := fn.Signature.Results()
+		for i := 0; i < res.Len(); i++ {
+			if m.IsDecNamed(res.At(i).Type()) {
+				return true
+			}
+		}
+		return false
+	}
+	var okVal func(v ssa.Value, d int) (bool, string)
+	okVal = func(v ssa.Value, d int) (bool, string) {
+		if d == 0 {
+			return false, "too deep"
+		}
+		switch x := v.(type) {
+		case *ssa.Const:
+			return true, ""
+		case *ssa.Parameter:
+			return true, ""
+		case *ssa.Slice:
+			if x.High != nil {
+				if k, ok := model.ConstInt(x.High); ok && k == 0 {
+					return true, ""
+				}
+			}
+			return false, "a slice expression (only v[:0] is trivially normalised)"
+		case *ssa.Call:
+			cal := x.Call.StaticCallee()
+			if cal == nil {
+				return false, "dynamic call"
+			}
+			if m.FuncName(cal) == "dec.make" || m.FuncName(cal) == "getDec" {
+				return false, "a buffer from make() returned without norm()"
+			}
+			if isDecFn(cal) {
+				return true, ""
+			}
+			return false, "result of " + m.FuncName(cal)
+		case *ssa.Extract:
+			if call, ok := x.Tuple.(*ssa.Call); ok && isDecFn(call.Call.StaticCallee()) {
+				return true, ""
+			}
+			return false, "extracted value"
+		case *ssa.ChangeType:
+			return okVal(x.X, d-1)
+		case *ssa.Phi:
+			for _, e := range x.Edges {
+				if ok, w := okVal(e, d-1); !ok {
+					return false, w
+				}
+			}
+			return true, ""
+		case *ssa.UnOp:
+			if lf, ok := m.LoadOfDecField(x); ok && lf.Field == m.F.Mant {
+				return true, ""
+			}
+		}
+		return false, fmt.Sprintf("%T", v)
+	}
+	for _, fn := range m.Funcs {
+		if !isDecFn(fn) || m.IsDecMethod(fn) {
+			continue
+		}
+		name := m.FuncName(fn)
+		if why, ok := tabled[name]; ok {
+			s.Note(R, name, m.Pos(fn.Pos()), "tabled: "+why)
+			continue
+		}
+		live := m.Live(fn)
+		var bad []string
+		nret := 0
+		for _, b := range fn.Blocks {
+			if !live[b.Index] {
+				continue
+			}
+			ret, ok := b.Instrs[len(b.Instrs)-1].(*ssa.Return)
+			if !ok {
+				continue
+			}
+			for i, r := range ret.Results {
+				if !m.IsDecNamed(fn.Signature.Results().At(i).Type()) {
+					continue
+				}
+				nret++
+				if ok, why := okVal(r, 6); !ok {
+					bad = append(bad, fmt.Sprintf("%s: result %d is %s", m.InstrPos(ret), i, why))
+				}
+			}
+		}
+		if len(bad) == 0 {
+			s.Ok(R, name, m.Pos(fn.Pos()), fmt.Sprintf("%d returned value(s), all normalised by construction", nret))
+		} else {
+			s.Bad(R, name, m.Pos(fn.Pos()), "a dec-layer function may return a value with high zero words (callers compare lengths and index the top word): "+bad[0], bad[1:]...)
+		}
 	}
 }
